@@ -4,6 +4,7 @@ import copy
 
 from ..prng import Rng
 from ..seams import CLOCK, F, T, reset_world, HarnessError
+from ..core import real
 from ..oracle import (ACCEPT, REJECT, EITHER, slack3, slack_tripped_int, and3,
                       verdict3, validsig, sha256, shake256, pubkey_of_seed,
                       bool_of, base_mult, point_add)
@@ -293,7 +294,7 @@ def execute(plan, run):
             CLOCK.latency_us = 0
             CLOCK.begin_call('S')
             try:
-                lock = build_lock(out, keys)
+                lock = real('lock_builder_' + out['kind'], build_lock, out, keys)
             finally:
                 reads = CLOCK.end_call()
             if not reads:
@@ -335,7 +336,7 @@ def execute(plan, run):
             run.violation('witness_builder', 'C15/witness_builder_raised/%s/%s' % (
                 step['wkind'], type(e).__name__), step=i, detail={'step': step})
             continue
-        items = items_of(w)
+        items = real('run_script(witness)', items_of, w)
         cor = step.get('corrupt')
         corrupted = None
         if cor:
